@@ -168,6 +168,97 @@ def check_schedule(ck, rs, group, param, date, deep):
     return pp, s
 
 
+def ref_term_mult(s: ref.Schedule, x, m):
+    """mathematical schedule with every rate scaled by m and the intercepts regenerated from intercept[0]
+    (what the docstring of piecewise_polynomial promises for rates_multiplier)"""
+    out = None
+    acc = zfrac(s.icpt[0])
+    vals = []
+    for k in range(s.n):
+        if k == 0:
+            vals.append(acc)
+            continue
+        h = x - zfrac(s.lower[k])
+        v, hp = acc, h
+        for p in range(s.deg):
+            v = v + m * zfrac(s.rates[p][k]) * hp
+            hp = hp * h
+        vals.append(v)
+        if k < s.n - 1:
+            w = fractions.Fraction(s.upper[k]) - fractions.Fraction(s.lower[k])
+            for p in range(s.deg):
+                acc = acc + m * zfrac(s.rates[p][k] * w ** (p + 1))
+    for k in reversed(range(s.n)):
+        out = vals[k] if out is None else z3.If(x < zfrac(s.upper[k]), vals[k], out)
+    return out
+
+
+def concrete_eval_mult(pp, x, m):
+    from _gettsim.piecewise_functions import piecewise_polynomial
+    return float(piecewise_polynomial(numpy.float64(x), pp["thresholds"], pp["rates"],
+                                      pp["intercepts_at_lower_thresholds"], rates_multiplier=numpy.float64(m)))
+
+
+def multiplier_obligation(ck, group, param, date, pp, s):
+    """rates_multiplier branch: forall x, forall m in [0, 2]"""
+    from _gettsim.piecewise_functions import piecewise_polynomial
+    name = f"{group}.{param}@{date}"
+    x = R.Sym(z3.Real("x"), float)
+    m = R.Sym(z3.Real("m"), float)
+    v, ctx = R.run(piecewise_polynomial, kwargs=dict(
+        x=x, thresholds=pp["thresholds"], rates=pp["rates"],
+        intercepts_at_lower_thresholds=pp["intercepts_at_lower_thresholds"], rates_multiplier=m))
+    ck.functions |= ctx.funcs
+    diff = R.term_of(v, float) - ref_term_mult(s, x.t, m.t)
+    tol = zfrac(EPS) + zfrac(fractions.Fraction(1, 10 ** 12)) * z3.If(x.t >= 0, x.t, -x.t)
+    pre = [m.t >= 0, m.t <= 2]
+    r, mod = ck.oblige(f"eval-multiplier {name}", [*pre, z3.Or(diff > tol, diff < -tol)], 60,
+                       sample={"schedule": name, "claim": "forall x, 0<=m<=2: piecewise_polynomial(x, rates_multiplier=m) == schedule with rates*m, intercepts regenerated"})
+    ck.nontrivial.add(("eval-multiplier", group, param, str(date)))
+    if r == "sat":
+        xv = float(R.z3_to_fraction(mod.eval(x.t, model_completion=True)))
+        mv = float(R.z3_to_fraction(mod.eval(m.t, model_completion=True)))
+        if _mult_fails(pp, s, xv, mv):
+            ck.violation(["eval-multiplier", group, param, str(date)],
+                         f"{name}: piecewise_polynomial({xv!r}, rates_multiplier={mv!r}) = {concrete_eval_mult(pp, xv, mv)!r} but the scaled schedule gives {_mult_want(s, xv, mv)!r}",
+                         {"kind": "eval-multiplier", "group": group, "param": param, "date": str(date), "x": xv, "m": mv})
+        else:
+            common.spurious("C18", f"{name}: multiplier model x={xv} m={mv} does not reproduce")
+    if ctx.errors:
+        r2, m2 = ck.oblige(f"noerr-multiplier {name}", [*pre, z3.Or([g for g, k, w in ctx.errors])], 30)
+        if r2 == "sat":
+            xv = float(R.z3_to_fraction(m2.eval(x.t, model_completion=True)))
+            mv = float(R.z3_to_fraction(m2.eval(m.t, model_completion=True)))
+            try:
+                concrete_eval_mult(pp, xv, mv)
+                common.spurious("C18", f"{name}: multiplier error guard model x={xv} m={mv} does not raise")
+            except Exception as e:   # noqa: BLE001
+                ck.violation(["raises-multiplier", group, param, str(date)], f"{name}: evaluation with rates_multiplier raises {type(e).__name__} at x={xv}, m={mv}",
+                             {"kind": "eval-multiplier", "group": group, "param": param, "date": str(date), "x": xv, "m": mv})
+
+
+def _mult_want(s, xv, mv):
+    x, m = fractions.Fraction(xv), fractions.Fraction(mv)
+    acc = fractions.Fraction(s.icpt[0])
+    for k in range(s.n):
+        last = k == s.n - 1
+        if k > 0 and (last or x < s.upper[k]):
+            h = x - fractions.Fraction(s.lower[k])
+            return float(acc + sum(m * s.rates[p][k] * h ** (p + 1) for p in range(s.deg)))
+        if k == 0:
+            if s.n == 1 or x < s.upper[0]:
+                return float(acc)
+            continue
+        w = fractions.Fraction(s.upper[k]) - fractions.Fraction(s.lower[k])
+        acc += sum(m * s.rates[p][k] * w ** (p + 1) for p in range(s.deg))
+    return float(acc)
+
+
+def _mult_fails(pp, s, xv, mv):
+    real, want = concrete_eval_mult(pp, xv, mv), _mult_want(s, xv, mv)
+    return not (abs(real - want) <= 1e-6 + 1e-12 * abs(xv))
+
+
 def shape_obligations(ck, name, pp, s, kind):
     """income tax / soli shape, forall real arguments"""
     xs = [R.Sym(z3.Real(f"x{i}"), float) for i in range(3)]
@@ -260,9 +351,12 @@ def run(tier):
                 shape_obligations(ck, f"{group}.{param}@{d}", pp, s, "eink_st")
             if (group, param) == ("soli_st", "soli_st"):
                 shape_obligations(ck, f"{group}.{param}@{d}", pp, s, "soli")
+            # rates_multiplier branch: the schedule used with it in production (quick) / every linear schedule (thorough)
+            if (group, param) == ("arbeitsl_geld_2", "eink_anr_frei") or (tier == "thorough" and s.deg == 1):
+                multiplier_obligation(ck, group, param, d, pp, s)
     ck.bounds = {"schedules": n_sched, "dates": "entries in force from 2015-01-01" if tier == "quick" else "every entry of every piecewise parameter",
                  "arguments": "all reals (per interval path)", "eps": "1e-6 + 1e-12|x|",
-                 "outside": "rates_multiplier branch of piecewise_polynomial (covered by C16 slice of ALG II income only)"}
+                 "rates_multiplier": "symbolic in [0, 2]; arbeitsl_geld_2.eink_anr_frei (quick), every piecewise_linear schedule (thorough)"}
     ck.stubs = ["numpy.searchsorted -> forked bin with threshold constraints", "floats as exact reals over the stored doubles"]
     ck.assumptions = ["float arithmetic modelled as exact real arithmetic over the stored double constants; FP deviation checked concretely at thresholds +-1 ulp"]
     ck.rule = "one obligation per (schedule, change date, claim); distinct by (claim, parameter, thresholds)"
@@ -284,6 +378,12 @@ def replay(path):
         want = float(s.eval_exact(fractions.Fraction(d["x"])))
         print("real", real, "schedule", want)
         return 1 if abs(real - want) > 1e-6 + 1e-12 * abs(d["x"]) else 0
+    if d["kind"] == "eval-multiplier":
+        date = datetime.date.fromisoformat(d["date"])
+        pp = real_parse(d["group"], d["param"], date)
+        s = ref.Schedule(rs.resolve(d["group"], d["param"], date))
+        print("real", concrete_eval_mult(pp, d["x"], d["m"]), "scaled schedule", _mult_want(s, d["x"], d["m"]))
+        return 1 if _mult_fails(pp, s, d["x"], d["m"]) else 0
     if d["kind"] == "shape":
         g, rest = d["name"].split(".", 1)
         p, dt = rest.split("@")
